@@ -7,11 +7,14 @@
 
 package v01
 
+//@ spec authNamesChange(env *sslibdsse.Envelope, ref string, from string, to string) bool
 //@ # C09: an authorization counts only for the exact change it names. The decoded statement is an arbitrary value
 //@ # (JSON/protobuf decoding is A-lib); what is proved is that acceptance implies every comparison against the
 //@ # requested (ref, from, to) was made on the decoded statement, on every path.
+//@ # authNamesChange(env, ref, from, to) is, by definition, "a Validate function accepted env for (ref, from, to)"
 //@ func [C09] Validate -> (err)
 //@   requires env != nil
+//@   assumed err == nil ==> authNamesChange(env, targetRef, fromRevisionID, targetTreeID)
 //@   ensures namesSubject: err == nil ==> len(attestation.Subject) >= 1 && attestation.Subject[0] != nil && has(attestation.Subject[0].Digest, digestGitTreeKey) == has(attestation.Subject[0].Digest, digestGitTreeKey) && ite(has(attestation.Subject[0].Digest, digestGitTreeKey), attestation.Subject[0].Digest[digestGitTreeKey], "") == targetTreeID
 //@   ensures namesTarget: err == nil ==> ite(has(predicate, targetTreeIDKey), predicate[targetTreeIDKey], nil) == toIfc(targetTreeID)
 //@   ensures namesFrom: err == nil ==> ite(has(predicate, fromRevisionIDKey), predicate[fromRevisionIDKey], nil) == toIfc(fromRevisionID)
